@@ -53,6 +53,8 @@ class AOneShot:
     def __init__(self, thunk) -> None:
         self._thunk = thunk
         self._items = None
+        self.gen_body = None        # body / activation of a generator function (None for every other lazy iterator)
+        self.gen_env = None
         self.truncated = False      # an unbounded generator cut after GEN_LIMIT elements: only a lazy consumer may take from it
 
     def items(self) -> list:
@@ -312,6 +314,30 @@ class Interp:
             cache[key] = self.eval(default, {'__module__': owner.module, '__unit__': None, '__closure__': None})
         return cache[key]
 
+    def _exec_with_generator(self, st: ast.With, item: ast.withitem, cm: 'AOneShot', env: Dict[str, Any]) -> None:
+        pending: list = []
+
+        def run_body(value):
+            if item.optional_vars is not None:
+                self.assign(item.optional_vars, value, env)
+            try:
+                self.exec_block(st.body, env)
+            except (_Return, _Break, _Continue) as flow:
+                # leaving the block by return / break / continue is a normal exit for the manager
+                pending.append(flow)
+
+        genv = cm.gen_env
+        genv['__cm_body__'] = run_body
+        genv['__cm_yielded__'] = False
+        try:
+            self.exec_block(cm.gen_body, genv)
+        except _Return:
+            pass
+        if not genv['__cm_yielded__']:
+            raise ARaise('RuntimeError (generator didn\'t yield)')
+        if pending:
+            raise pending[0]
+
     # ------------------------------------------------------------------ calls
     def call_unit(self, unit: FuncUnit, args: List[Any], kwargs: Dict[str, Any], self_obj=None, closure=None):
         self.tick()
@@ -378,6 +404,8 @@ class Interp:
                     holder[0].truncated = True
                 return yields
             holder.append(AOneShot(thunk))
+            holder[0].gen_body = unit.node.body      # used when the generator serves as a context manager (see ast.With)
+            holder[0].gen_env = env
             return holder[0]
         try:
             self.exec_block(unit.node.body, env)
@@ -1062,6 +1090,11 @@ class Interp:
                     names = [(dotted(a) or '').split('.')[-1] for a in ce.args]
                 else:
                     cm = self.eval(ce, env)
+                    if isinstance(cm, AOneShot) and cm.gen_body is not None and len(st.items) == 1:
+                        # a generator function used as a context manager (contextlib.contextmanager): its body is run with
+                        # the with-body in the place of its single yield
+                        self._exec_with_generator(st, item, cm, env)
+                        return
                     if not (isinstance(cm, AObj) and '__enter__' in cm.attrs and '__exit__' in cm.attrs):
                         raise AnalysisError(f'abstract interpretation: unsupported with-item {unparse(ce)}')
                     managers.append(cm)
@@ -1346,6 +1379,15 @@ class Interp:
                     kwargs[k.arg] = self.eval(k.value, env)
             return self.call(f, args, kwargs, e)
         if isinstance(e, ast.Yield):
+            if env.get('__cm_body__') is not None:
+                # the generator of a @contextmanager: the with-body runs here; what it raises is raised at this yield
+                run_body = env['__cm_body__']
+                env['__cm_body__'] = None
+                env['__cm_yielded__'] = True
+                run_body(self.eval(e.value, env) if e.value is not None else None)
+                return None
+            if env.get('__cm_yielded__'):
+                raise ARaise('RuntimeError (generator didn\'t stop)')
             if '__yields__' not in env:
                 raise AnalysisError('abstract interpretation: yield outside a generator function')
             env['__yields__'].append(self.eval(e.value, env) if e.value is not None else None)
